@@ -48,6 +48,15 @@ fn case(rng: &mut Rng, out: &mut CaseOut) {
         let mut d = vec![vec![0u8; size]; k];
         for _ in 0..rng.range(1, 2) {
             let i = rng.below(k);
+            if size >= 64 && rng.chance(1, 2) {
+                // a whole block rewritten, with structured contents
+                let at = 64 * rng.below(size / 64);
+                let mut blk = [0u8; 64];
+                rng.fill(&mut blk);
+                crate::mon_c03::structure_block(rng, &mut blk);
+                d[i][at..at + 64].copy_from_slice(&blk);
+                continue;
+            }
             for _ in 0..rng.range(1, 3) {
                 let at = rng.below(size);
                 let len = rng.range(1, 4).min(size - at);
